@@ -214,12 +214,12 @@ def entry_generator(repo):
                 and isinstance(c.func, ast.Attribute)
                 and c.func.attr == "format"
                 and isinstance(c.func.value, ast.Name)
-                and "OVLD.map[" in m.str_constants.get(c.func.value.id, "")
+                and "OVLD.map" in m.str_constants.get(c.func.value.id, "")
             ):
                 return True
         return False
 
-    return _one([f for f in repo.all_funcs() if f.parent is None and ok(f)], "entry-point generator (formats the template containing OVLD.map[)")
+    return _one([f for f in repo.all_funcs() if f.parent is None and ok(f)], "entry-point generator (formats the template that reads OVLD.map)")
 
 
 @_memo
@@ -266,13 +266,9 @@ def adapter(repo):
 @_memo
 def normalizer(repo):
     def ok(c):
-        call = c.methods.get("__call__")
-        if call is None:
-            return False
-        ds = {dotted(n) for n in ast.walk(call.node) if isinstance(n, ast.Attribute)}
-        return "typing.Any" in ds and "inspect._empty" in ds
+        return "__call__" in c.methods and "register_generic" in c.methods
 
-    return _one([c for c in repo.all_classes() if ok(c)], "type normaliser (its __call__ tests typing.Any and inspect._empty)")
+    return _one([c for c in repo.all_classes() if ok(c)], "type normaliser (callable class with register_generic)")
 
 
 @_memo
